@@ -49,6 +49,21 @@ Definition cur_assign_sites : list site := [
   mkSite "parser/parser.go" "next" "p.pos =" "p.lexer.Scan()" [OScan "Scan"];
   mkSite "parser/parser.go" "nextRegex" "p.pos =" "p.lexer.ScanRegex()" [OScan "ScanRegex"]
 ].
+Record assert_site : Type := mkAssert { a_file : string; a_func : string; a_expr : string; a_typ : string;
+  a_in_recover : bool; a_case : string; a_guard : string; a_assigns : nat }.
+Record arg_check : Type := mkArgCheck { k_file : string; k_func : string; k_range_over : string; k_value : string;
+  k_has_check : bool; k_reassigned : nat; k_rejects : bool }.
+Definition unchecked_asserts : list assert_site := [
+  mkAssert "internal/compiler/compiler.go" "Compile" "r" "*compileError" true "" "r != nil" 0;
+  mkAssert "internal/compiler/compiler.go" "expr" "e.Args[1]" "*ast.VarExpr" false "lexer.F_SPLIT" "" 0;
+  mkAssert "internal/compiler/compiler.go" "expr" "arg" "*ast.VarExpr" false "*ast.UserCallExpr" "f.Arrays[i]" 0;
+  mkAssert "internal/resolver/resolve.go" "Visit" "n.Args[1]" "*ast.VarExpr" false "lexer.F_SPLIT" "" 0;
+  mkAssert "parser/parser.go" "ParseProgram" "r" "*ast.PositionError" true "" "r != nil" 0
+].
+Definition array_arg_checks : list arg_check := [
+  mkArgCheck "internal/resolver/resolve.go" "Visit" "n.Args" "arg" true 0 true
+].
+Definition split_args_init : list string := ["expr:str"; "lit:ast.VarExpr"].
 Definition gen_tokens : list (string * Z) := [
   ("ILLEGAL", 0);
   ("EOF", 1);
